@@ -55,3 +55,18 @@ Theorem C10_model_meets_monitor : forall (cf:config) (m:mech) (mc:mcfg) (cc:ccfg
   consistent mc cf -> consistent_cc cc cf m -> well_formed_history ops -> verdicts_true 10 (run_mon mc cc (init cf m) (mall0 cc) ops).
 Proof. exact AgentMeets2.model_meets_C10. Qed.
 Print Assumptions C10_model_meets_monitor.
+
+(* ---- which bytes the CRC covers, by the Rust text itself: get_input_text of raw.rs (with RawMessage::decode and the
+   attribute iterator it calls) is translated by tools/rs2v.py from /repo's CURRENT source on every run (Generated/Code.v).
+   For ALL byte strings and attribute types (FINGERPRINT = 0x8028 in particular) the translated code never panics, never runs
+   out of fuel, and returns exactly the text the model `input_text` returns (an error where the model has one); a buffer whose
+   header MessageHeader::decode refuses yields an error.  Proofs/CodeAgreeRaw.v *)
+From Rustun Require Import Base.GRes Generated.Code Proofs.CodeAgreeRaw.
+Theorem C10_code_input_text_is_model : forall b ty, Tlv.bytes_ok b = true ->
+  (Wire.hdr_valid b = true ->
+     gen_get_input_text (S (length b)) b ty
+     = GOk (match InputText.input_text b ty with Tlv.Ok t => Some t | _ => None end)
+     /\ InputText.input_text b ty <> Tlv.Panic)
+  /\ (Wire.hdr_valid b = false -> gen_get_input_text (S (length b)) b ty = GOk None).
+Proof. exact CodeAgreeRaw.gen_get_input_text_is_model. Qed.
+Print Assumptions C10_code_input_text_is_model.
